@@ -61,9 +61,13 @@ type c01GVP struct{ E clause.Expr }
 func (g *c01GVP) GormValue(ctx context.Context, db *gorm.DB) clause.Expr { return g.E }
 
 // structs for NamedExpr's struct argument form
+// Field names are chosen so that they never equal an exported field of a library struct (clause.Column.Name,
+// sql.NullString.String, clause.Expr.SQL, …): NamedExpr.Build adds the exported fields of EVERY struct-typed
+// element of Vars to its name map by reflection; the model has name-map entries only for sql.NamedArg, map and
+// the structs encoded as such.
 type C01Person struct {
-	Name   string
-	Age    int
+	Pname  string
+	Page   int
 	secret int
 }
 type C01Wrap struct {
@@ -279,8 +283,8 @@ func c01Enc(v interface{}) interface{} {
 }
 
 func c01EncPerson(p C01Person) interface{} {
-	return []interface{}{"st", []interface{}{[]interface{}{"Name", false}, []interface{}{"Age", false}, []interface{}{"secret", false}},
-		[]interface{}{c01Enc(p.Name), c01Enc(p.Age), c01Enc(p.secret)}}
+	return []interface{}{"st", []interface{}{[]interface{}{"Pname", false}, []interface{}{"Page", false}, []interface{}{"secret", false}},
+		[]interface{}{c01Enc(p.Pname), c01Enc(p.Page), c01Enc(p.secret)}}
 }
 
 func c01EncBytes(b []byte) []interface{} {
@@ -476,7 +480,7 @@ func (c *c01Ctx) real(j interface{}) interface{} {
 	case "st":
 		fs, vs := jl(a[1]), jl(a[2])
 		if len(fs) == 3 {
-			return C01Person{Name: c.real(vs[0]).(string), Age: c.real(vs[1]).(int), secret: c.real(vs[2]).(int)}
+			return C01Person{Pname: c.real(vs[0]).(string), Page: c.real(vs[1]).(int), secret: c.real(vs[2]).(int)}
 		}
 		return C01Wrap{C01Person: c.real(vs[0]).(C01Person), Nick: c.real(vs[1]).(string)}
 	case "col":
@@ -896,7 +900,7 @@ func (g *c01Gen) nmap() interface{} {
 }
 
 func (g *c01Gen) person() interface{} {
-	return []interface{}{"st", []interface{}{[]interface{}{"Name", false}, []interface{}{"Age", false}, []interface{}{"secret", false}},
+	return []interface{}{"st", []interface{}{[]interface{}{"Pname", false}, []interface{}{"Page", false}, []interface{}{"secret", false}},
 		[]interface{}{[]interface{}{"s", "s:" + c01Hostile[g.rng.Intn(len(c01Hostile))]}, []interface{}{"s", "i:" + strconv.Itoa(g.rng.Intn(90))}, []interface{}{"s", "i:7"}}}
 }
 
@@ -970,7 +974,7 @@ func (g *c01Gen) expr(depth int) interface{} {
 var c01Terms = []string{" ", ",", ")", "\"", "'", "`", "\r", "\n", ";", ""}
 
 func (g *c01Gen) nexpr(depth int) interface{} {
-	names := []string{"name", "age", "n", "Name", "Age", "Nick", "secret", "zz", "na me"}
+	names := []string{"name", "age", "n", "Pname", "Page", "Nick", "secret", "zz", "na me"}
 	var sb strings.Builder
 	k := 1 + g.rng.Intn(4)
 	used := []string{}
